@@ -1,11 +1,172 @@
-(* C14 — No peer input can crash the host or change state when rejected. Statements only. *)
+(* C14 — No peer input can crash the host or change state when rejected.
+   Statements only; every proof is [exact lemma].
+
+   The models (Model.v: rhp/v3/execute.go + budget + the contract gate of handleRPCExecute;
+   Rpc.v: the renter-controlled range/index/arithmetic logic of rhp/v2/rpc.go and of
+   RPCFundAccount / the renewal handlers) correspond to the code WITH the patches
+   fixes/C14-*.patch; Legacy.v holds the unpatched checks and the c14_head_*_refuted
+   witnesses show that each of them is reachable with a panic.
+
+   Quantification: program data of any length and content ([pdata] = length + arbitrary
+   byte function), every operand value, every instruction sequence, with and without a
+   contract ([qcontract], [xcontract]) and with and without proofs.  What is NOT peer input
+   is a hypothesis ([ctx_ok], [request_ok], [inv]): data length is a Go int, host prices
+   are below 2^60 / 2^40 H, durations and immediates are uint64, the budget is below
+   2^127 H, and the collateral for the whole program fits a Currency.
+
+   Reading of "rejected leaves ... exactly as they were": contract revision number, sector
+   roots and temporary-sector references are unchanged; the account is debited exactly the
+   non-storage cost of the instructions that were executed before the failure (the
+   protocol's documented charge), never more than the budget, and nothing at all when the
+   rejection happens before the program starts or at finalization.  Sectors written by
+   executed instructions stay on disk unreferenced (awaiting prune) — they are not
+   "stored sectors" in the host's accounting.
+
+   PARTIAL: a hang of the host process is outside the model; the only no-hang statement is
+   that every model function is a total Gallina function (structural recursion over the
+   instruction / section / action lists), c14_no_hang_partial below.  Panics inside
+   core/coreutils that do not depend on the modelled checks (e.g. a decoder allocating
+   a renter-chosen slice length) are outside the model as well. *)
 From HostdBase Require Import Base.
-From HostdMDM Require Import Model Proofs.
+From HostdMDM Require Import Model Rpc Proofs ProofsExec ProofsInstr ProofsProg ProofsRpc Legacy.
 Local Open Scope N_scope.
 
+(** * programData accessors *)
 Theorem c14_accessors_no_panic : forall a d off len, pd_ok d -> run_acc (a, d, off, len) <> Panic.
 Proof. exact run_acc_no_panic. Qed.
 Print Assumptions c14_accessors_no_panic.
 
-Example c14_nonvacuous : pd_fixed (mkpd 8 [1;2;3;4;5;6;7;8] 0 []) 0 8 = Ok tt.
-Proof. vm_compute; reflexivity. Qed.
+(* an access is accepted exactly when offset + size (no wrap-around) lies inside the data *)
+Theorem c14_accessors_accept_iff_in_range : forall a d off len, pd_ok d ->
+  (exists v, run_acc (a, d, off, len) = Ok v) <->
+  (off + acc_need a len <= plen d /\ (a = AUnlockKey -> 16 <= len)).
+Proof. exact run_acc_ok_iff. Qed.
+Print Assumptions c14_accessors_accept_iff_in_range.
+
+(** * MDM instructions *)
+Theorem c14_instr_no_panic : forall x i0 m k i e s,
+  ctx_ok x -> instr_wf i -> (requires_contract i = true -> xcontract x = true) ->
+  inv x i0 m (S k) s -> rinv (S k) s ->
+  snd (exec_instr x i e s) <> Panic.
+Proof. exact instr_no_panic. Qed.
+Print Assumptions c14_instr_no_panic.
+
+Theorem c14_instr_rejected_unchanged : forall x i0 m k i e s s' er,
+  ctx_ok x -> instr_wf i -> (requires_contract i = true -> xcontract x = true) ->
+  inv x i0 m (S k) s -> rinv (S k) s ->
+  exec_instr x i e s = (s', Err er) ->
+  eroots s' = eroots s /\ etemps s' = etemps s /\ inv x i0 m k s'.
+Proof. exact instr_rejected_unchanged. Qed.
+Print Assumptions c14_instr_rejected_unchanged.
+
+Theorem c14_instr_keeps_invariant : forall x i0 m k i e s s' n,
+  ctx_ok x -> instr_wf i -> (requires_contract i = true -> xcontract x = true) ->
+  inv x i0 m (S k) s -> rinv (S k) s ->
+  exec_instr x i e s = (s', Ok n) -> inv x i0 m k s' /\ rinv k s'.
+Proof. exact instr_ok_invariant. Qed.
+Print Assumptions c14_instr_keeps_invariant.
+
+(** * whole programs through handleRPCExecute / Execute *)
+Theorem c14_mdm_no_panic : forall h q, request_ok h q -> snd (run_program h q) <> Crashed.
+Proof. exact run_program_no_panic. Qed.
+Print Assumptions c14_mdm_no_panic.
+
+Theorem c14_mdm_rejected_unchanged : forall h q h' e,
+  request_ok h q -> run_program h q = (h', Rejected e) ->
+  hrev h' = hrev h /\ hroots h' = hroots h /\ htemps h' = htemps h /\
+  hbal h' <= hbal h /\ hbal h - hbal h' <= qamount q /\
+  (hbal h' = hbal h \/
+   exists b1 s er,
+     spend {| bmax := qamount q; buse := usage0 |} (init_usage q) = Ok b1 /\
+     run_instrs (ctx_of q) (qprog q) (start_of h q b1) = (s, Err er) /\
+     hbal h = hbal h' + ptInit (qpt q) + nonstorage (eusage s)).
+Proof. exact run_program_rejected. Qed.
+Print Assumptions c14_mdm_rejected_unchanged.
+
+(* the gate matters: without it an instruction that needs a contract dereferences nil *)
+Theorem c14_ungated_instruction_panics : forall s e,
+  snd (exec_instr {| xdata := dummy_pd; xpt := dummy_pt; xdur := 0; xcontract := false |} IRevision e
+         {| eroots := []; ebudget := {| bmax := 10; buse := usage0 |}; ecost := cost0; eusage := usage0;
+            etemps := []; ewrites := s |}) = Panic.
+Proof. exact ungated_revision_panics. Qed.
+Print Assumptions c14_ungated_instruction_panics.
+
+(* totality is all the model can say about hangs *)
+Theorem c14_no_hang_partial : forall h q, exists h' o, run_program h q = (h', o).
+Proof. exact (fun h q => ex_intro _ (fst (run_program h q)) (ex_intro _ (snd (run_program h q)) (surjective_pairing _))). Qed.
+Print Assumptions c14_no_hang_partial.
+
+(** * RHP2 range logic, renter key, renewal costs, RHP3 fund account *)
+Theorem c14_rpc_no_panic :
+  (forall s q, nroots (rroots s) < two63 -> snd (rpc_sector_roots s q) <> Panic) /\
+  (forall s q, snd (rpc_read s q) <> Panic) /\
+  (forall s q, snd (rpc_write s q) <> Panic) /\
+  (forall alg n, form_renter_key alg n <> Panic) /\
+  (forall base sp cp fs ce ne, renewal_costs base sp cp fs ce ne <> Panic) /\
+  (forall s q, fbal s + fdTotal q < two128 -> snd (rpc_fund_account s q) <> Panic).
+Proof. exact (conj rpc_sector_roots_no_panic (conj rpc_read_no_panic (conj rpc_write_no_panic
+         (conj form_renter_key_no_panic (conj renewal_costs_no_panic rpc_fund_account_no_panic))))). Qed.
+Print Assumptions c14_rpc_no_panic.
+
+Theorem c14_rpc_rejected_unchanged :
+  (forall s q s' e, nroots (rroots s) < two63 -> rpc_sector_roots s q = (s', Err e) -> s' = s) /\
+  (forall s q s' e, rpc_write s q = (s', Err e) -> s' = s) /\
+  (forall s q s' e, rpc_fund_account s q = (s', Err e) -> s' = s) /\
+  (* rpcRead commits the payment for the whole request before it reads the sectors: the
+     only rejection after that point is a section naming a sector the host does not store *)
+  (forall s q s' e, rpc_read s q = (s', Err e) ->
+     s' = s \/ (rdPayOk q = true /\ exists c, In c (rdSections q) /\ scPresent c = false)).
+Proof. exact (conj rpc_sector_roots_rejected (conj rpc_write_rejected (conj rpc_fund_account_rejected rpc_read_rejected))). Qed.
+Print Assumptions c14_rpc_rejected_unchanged.
+
+Theorem c14_fund_account_exact : forall s q s' a,
+  rpc_fund_account s q = (s', Ok a) ->
+  a + fdCost q = fdTotal q /\ fbal s' = fbal s + a /\ fbal s' <= fdMaxBal q.
+Proof. exact rpc_fund_account_accepted. Qed.
+Print Assumptions c14_fund_account_exact.
+
+Theorem c14_renewal_costs_exact : forall base sp cp fs ce ne r c,
+  ce < ne -> ne < two64 -> renewal_costs base sp cp fs ce ne = Ok (r, c) ->
+  r = base + sp * fs * (ne - ce) /\ c = cp * fs * (ne - ce) /\ r < two128 /\ c < two128.
+Proof. exact renewal_costs_exact. Qed.
+Print Assumptions c14_renewal_costs_exact.
+
+(** * the unpatched checks (Legacy.v): each site is reachable with a panic.
+   Full statement "no input panics" is FALSE for the HEAD logic at these sites. *)
+Theorem c14_head_accessors_refuted :
+  head_fixed data64 (max64' - 7) 8 = Panic /\ head_fixed data64 (max64' - 31) 32 = Panic /\
+  head_fixed data64 (max64' - 63) 64 = Panic /\
+  head_sector (mkpd SectorSize [] 0 []) (max64' - SectorSize + 1) = Panic /\
+  head_bytes data64 max64' 2 = Panic /\ head_unlockkey data64 0 8 = Panic.
+Proof. exact (conj head_uint64_refuted (conj head_hash_refuted (conj head_signature_refuted
+         (conj head_sector_refuted (conj head_bytes_refuted head_unlockkey_refuted))))). Qed.
+Print Assumptions c14_head_accessors_refuted.
+
+Theorem c14_head_instructions_refuted :
+  (head_drop_proof 2 0 = Panic /\ head_drop_proof 2 3 = Panic) /\
+  (read_out 0 (SectorSize + 1) false = Panic /\ read_out 0 1 true = Panic /\ read_out 0 0 true = Panic) /\
+  head_read_sector (max64' - 63) 128 true = Panic /\
+  csub 0 1 = Panic.
+Proof. exact (conj head_drop_sectors_refuted (conj head_read_offset_refuted
+         (conj head_read_sector_refuted head_fund_account_refuted))). Qed.
+Print Assumptions c14_head_instructions_refuted.
+
+Theorem c14_head_rhp2_refuted :
+  head_sector_roots 2 1 0 = Panic /\
+  head_read {| scPresent := true; scOff := max64' - 63; scLen := 128 |} true = Panic /\
+  head_write {| wrActions := [WUpdate 0 0 64 true 7]; wrProof := true; wrSectors := 1;
+                wrPayOk := true; wrSigOk := true; wrCommitOk := true |} = Panic /\
+  head_form_key true 0 = Panic /\
+  head_renewal 0 34359738368 max64' max64' = Panic.
+Proof. exact (conj head_sector_roots_refuted (conj head_read_refuted (conj head_write_refuted
+         (conj head_form_key_refuted head_renewal_refuted)))). Qed.
+Print Assumptions c14_head_rhp2_refuted.
+
+(* non-vacuity: a concrete request meets the hypotheses; one program runs to completion
+   (ReadOffset with proof, DropSectors with proof, finalized), one is rejected in its second
+   instruction (operand offset 2^64-8) and pays only for the first *)
+Example c14_nonvacuous :
+  request_ok ex_h ex_good /\ request_ok ex_h ex_bad /\
+  run_program ex_h ex_good = ({| hbal := 999852; hrev := 4; hroots := [11]; htemps := [] |}, Done [64; 0]) /\
+  run_program ex_h ex_bad = ({| hbal := 999862; hrev := 3; hroots := [11; 22]; htemps := [] |}, Rejected EInvalid).
+Proof. exact ex_nonvacuous. Qed.
